@@ -36,6 +36,24 @@ first_missed = {
  "C18-r2d": "missed at first (describe handler keeps the logger lock): the logger package is instrumented too and the library's HandlerDescribePacket is part of a scenario with a header-only query.",
  "C18-r2e": "missed at first (rcode tested before the transaction id): the scripted peer also sends a negative answer with a foreign id before the genuine one.",
  "C04-a": "missed at first: no Unicode string value whose UTF-16LE bytes contain 00 00 straddling two code units. Added such values (Ā, aĀb, …) to the lattice of every Unicode string field.",
+ "C01-r3a": "missed at first (only the NT-hash variant of the hashcat formatter keeps the user's upper case): the password-based and the NT-hash-based hashcat formatters are now compared with each other for every (password, user) of the lattice (two routes to one line), in addition to the reference line.",
+ "C01-r3c": "missed at first (md4.Sum appends its padding into the spare capacity of the caller's slice): mc/purity now also hands every input over as a sub-slice of a larger buffer and demands that input and spare capacity stay untouched.",
+ "C02-r3c": "missed at first ('%' in user/domain interpreted as a format verb by ToHashcatString): '%' names ('100%sure', '%USERDOMAIN%', '%x', '%%') added to the name alphabet of the export-line obligations.",
+ "C04-r3c": "missed at first (FindUniqueRequest advances by a count that is only right for NUL-terminated formats): wherever a command honours the caller's SMB_STRING buffer format (probed per field, not assumed) the round trip is also run with the other formats (0x01, 0x02, 0x04, 0x05; only the round-trip obligations apply to these variants).",
+ "C05-r3c": "missed at first (Header.SetPID drops the high half through an operator-precedence slip): header setters (SetPID and friends) are driven over 32-bit boundary values, not only field assignment.",
+ "C06-r3a": "missed at first (OEM_STRING keeps a 0x02 format left on the value, its decoder refuses it): object histories for OEM_STRING including a value whose format byte was set to each of the five formats.",
+ "C07-r3c": "missed at first (FromFormatX slices a field of length 0/1 with [2:] when called directly): single-byte deletion and duplication at every offset added to the mutation set of every text decoder, and FromFormatN/D/B/P/X are entry points of their own.",
+ "C13-r3b": "missed at first (upper-case '0X' prefix rejected): full upper-casing of every textual form, not only of the hex digits, added to the accepted-spellings lattice.",
+ "C13-r3c": "missed at first (SetTime uses the argument's zone for the 1582 epoch): every 7th instant of the time lattice is also passed carried in three fixed non-UTC zones (+02:00, -05:00, +05:30): a time.Time is an instant, its Location is presentation.",
+ "C20-r3a": "missed at first (form feed survives the trim and is tolerated by the pattern): padding alphabet extended to every ASCII white-space character (space, tab, LF, CR, FF, VT), all paddings of length <= 2 on both sides.",
+ "C08-r3a": "missed at first (pad byte written for NTLMv1 when TargetInfo has odd size, offsets not adjusted): a TargetInfo of odd total size is now part of the quick lattice for all 64 flag combinations.",
+ "C08-r3b": "missed at first (OEM names upper-cased into a buffer sized before case mapping): runes whose upper case has a different UTF-8 size (U+0131, U+0250) added for the OEM character set, judged by a code-page independent invariant (no NUL in the field; the field of a name is the concatenation of the fields of its characters).",
+ "C11-r3c": "missed at first (buffered reader bound to the previous connection survives Connect): histories with two connections in a row on one transport (every prefix/segmentation of the first stream x number of Receives x with/without Close).",
+ "C16-r3c": "missed at first (FindObjectSIDByRID returns a SID string it composed itself instead of decoding the found object's objectSid): Session lookups (GetDomain, GetAllDomains, FindObjectSIDByRID) now run against an in-process LDAP directory over net.Pipe, for every RID of the LocalRIDs table and 5 directory variants.",
+ "C17-r3d": "NOT CLAIMED as a detection: the change makes RefreshName extend a group by the last joiner's TTL instead of the first registrant's. The property does not say which interval a refresh applies when members registered with different TTLs (the unchanged code already lets the last joiner's TTL govern the whole record); with unanimous TTLs, which the model decides, both versions agree. Recorded as outside the determinate region of C17 rather than forcing an oracle the property does not state.",
+ "C18-r3b": "missed at first (Close without sync.Once: two concurrent closers double-close the channel): scenario with two closing threads; the free-running race pass also closes from two goroutines.",
+ "C18-r3d": "missed at first (WaitGroup.Add per datagram, Done skipped for undecodable datagrams, Stop then waits forever): scenarios with undecodable datagrams (3 bytes; header whose counts exceed the content) before Stop.",
+ "C18-r3e": "missed at first (QueryName hands out a capacity-clipped view of the owner list): group query racing a release of a non-last member / a joining member under the scheduler (answer must be the list before or after), and group churn in the free-running race pass.",
 }
 rows=[]
 for d in sorted(glob.glob('/verif/seeded/*/')):
